@@ -47,6 +47,7 @@ pub struct Rec {
     pub no_cloexec: bool,
     pub fail_fd_at: i32,
     pub fd_creates: i32,
+    pub max_attempts: usize,
     pub nshm: usize,
     pub nmapped: usize,
 }
@@ -63,6 +64,7 @@ pub static mut R: Rec = Rec {
     no_cloexec: false,
     fail_fd_at: -1,
     fd_creates: 0,
+    max_attempts: MAXA,
     nshm: 0,
     nmapped: 0,
 };
@@ -132,7 +134,7 @@ pub unsafe extern "C" fn close(fd: c_int) -> c_int {
     0
 }
 unsafe fn attempt(a: Att) -> ssize_t {
-    kani::assume(R.natt < MAXA); // model capacity: sends needing more attempts are outside the bound
+    kani::assume(R.natt < MAXA && R.natt < R.max_attempts); // capacity: sends needing more attempts are outside the bound
     let i = R.natt;
     R.natt += 1;
     let fail = (R.mask >> i) & 1 == 1;
@@ -315,6 +317,9 @@ pub fn link() {
 
 // ---- environment API (same names as kn.rs) -----------------------------------------------------
 pub fn set_record_only(_b: bool) {}
+pub fn set_max_attempts(n: usize) {
+    unsafe { R.max_attempts = n }
+}
 pub fn set_sndbuf(v: u32) {
     unsafe { R.sndbuf = v }
 }
